@@ -526,6 +526,11 @@ def parser_type_classes(eng) -> List[str]:
                         q = c.rsplit(".", 1)[0]
                         if prog.is_subclass(q, TYPE_BASE) and q != TYPE_BASE:
                             out.add(q)
+    # plus every concrete (leaf) class of the Type hierarchy: a callback may construct its type
+    # through a table (constructor not syntactically visible)
+    for c in prog.subclasses(TYPE_BASE, strict=True):
+        if not prog.subclasses(c.qual, strict=True):
+            out.add(c.qual)
     return sorted(out)
 
 
